@@ -14,13 +14,12 @@ TRUSTED = ['model: coq/Ck/CkFull.v (transcription of Downtime::Start/IsInEffect/
            'Checkable::NotifyDowntime*); agreement with the code is re-established on every run by differential execution',
            'ocaml/ops_c5.ml rebuilds the per-step records (downtimes before/after, events) from script + implementation trace',
            'hook H1 (virtual clock) in lib/base/utility.cpp; the start timer and the per-downtime clean-up timer are invoked by the script, their latency is an input',
-           'oracle checks 1-11, 13, 14 (attributes/trigger time never change, no trigger outside the window, removal events, DowntimeEnd count, ownership, '
-           'clean-up, trigger on result, trigger on add, DowntimeStart count, OnDowntimeTriggered events, depth; nothing changes when the clean-up timer is not '
-           'armed and due; every downtime has a clean-up timer that, when armed, is due at its expiry, and is armed whenever the Downtime object is not paused) '
-           'are proved to hold on every step of every model run without the lost-start signature (C05_timer_oracle_accepts_model); check 12 (chains at every '
-           'level; directly chained downtimes are proved, C05_chain) is validated against the model on the generated population only',
+           'all 14 oracle checks (attributes/trigger time never change, no trigger outside the window, removal events, DowntimeEnd count, ownership, '
+           'clean-up, trigger on result, trigger on add, DowntimeStart count, OnDowntimeTriggered events, depth, chained triggers at every level; nothing changes '
+           'when the clean-up timer is not armed and due; every downtime has a clean-up timer that, when armed, is due at its expiry, and is armed whenever the '
+           'Downtime object is not paused) are proved to hold on every step of every model run without the lost-start signature (C05_timer_oracle_accepts_model)',
            'the clean-up timer is observed on the REAL Timer object (m_Started, m_Next) and fired through its own OnTimerExpired signal only when started and due at the '
-           'virtual time; the periodic start timer / comment-expiry timer are file-static objects in downtime.cpp / comment.cpp that the harness cannot reach: their handlers are still called directly']
+           'virtual time; the periodic start timer / comment-expiry timer are file-static objects in downtime.cpp / comment.cpp that the harness cannot reach (internal linkage, like the registry l_Timers in timer.cpp; hook proposal repo_patches/verif-hook-H2-timer-registry.diff): their handlers are still called directly']
 ASSUMPTIONS = ['timestamps are whole seconds (exact in binary64)',
                'the clock does not run backwards and check results are not stamped in the future (0 < execution_end <= now); checked by the oracle per step',
                'downtime names are fresh (Downtime::AddDowntime refuses an existing name)',
